@@ -4,8 +4,8 @@
 //!        | (delpages n...) | (renumber) | (compress) | (decompress) | (ccs (i g) xC) | (cpc (i g) xC) | (apc (i g) xC)
 //!        | (atpc (i g) (op xOP operand...)...) | (gocr (i g)) | (addx (i g) xNAME (i g)) | (addgs (i g) xNAME (i g))
 //!        | (content (i g)) | (save table|stream) | (bm (t cp...) fmt (c xR xG xB) (i g) parent|none) | (outline)
-//! A failure whose cause is a recorded known finding is tagged [<finding id>]; the tag is decided by
-//! evaluating the finding's class predicate on the document BEFORE the call, not by the symptom.
+//! No finding of this property is open: every reported failure is a violation (a failure caused by an open known finding
+//! would be tagged [<finding id>] by evaluating the finding's class predicate on the document BEFORE the call).
 //! Result: (trace (<out> <dump-or-=>)...) -- what each call returned and the canonical dump of the
 //!   document after it ("=" when the dump equals the previous one); once a bookmark exists the dump is
 //!   (st <doc> (bm max_bookmark_id (roots ...) (tbl (id (i g) (children...))...))).
@@ -231,13 +231,24 @@ fn direct_dict(doc: &Document, id: ObjectId) -> Option<&Dictionary> {
     }
 }
 
-/// the page tree is a tree of direct dictionaries: every node listed once, Parent links right, Counts right
+/// the page tree is a tree: every node listed once, Parent links right, Counts right.  Pages nodes are dictionary objects, a
+/// leaf may sit behind reference objects (9 0 obj 3 0 R endobj), a Count may be an indirect object (ISO 32000-1 7.3.10: any
+/// value may be indirect)
 fn tree_wf(doc: &Document) -> bool {
     fn walk(doc: &Document, id: ObjectId, parent: Option<ObjectId>, seen: &mut BTreeSet<ObjectId>, depth: usize) -> Option<i64> {
         if depth > 64 || !seen.insert(id) {
             return None;
         }
-        let d = direct_dict(doc, id)?;
+        let d = match direct_dict(doc, id) {
+            Some(d) => d,
+            None => {
+                let d = doc.get_dictionary(id).ok()?;
+                if d.get(b"Type").ok()?.as_name().ok()? != b"Page" {
+                    return None;
+                }
+                d
+            }
+        };
         match (parent, d.get(b"Parent").ok()) {
             (None, None) => {}
             (Some(p), Some(Object::Reference(q))) if p == *q => {}
@@ -254,7 +265,7 @@ fn tree_wf(doc: &Document) -> bool {
                 for k in kids {
                     n += walk(doc, k.as_reference().ok()?, Some(id), seen, depth + 1)?;
                 }
-                if d.get(b"Count").ok()?.as_i64().ok()? != n {
+                if deref(doc, d.get(b"Count").ok()?)?.as_i64().ok()? != n {
                     return None;
                 }
                 Some(n)
@@ -267,6 +278,12 @@ fn tree_wf(doc: &Document) -> bool {
         None => return false,
     };
     walk(doc, root, None, &mut BTreeSet::new(), 0).is_some()
+}
+
+/// page_iter lists no id twice (it does when the page tree has a cycle or a shared node)
+fn tree_ids_once(doc: &Document) -> bool {
+    let mut seen = BTreeSet::new();
+    doc.page_iter().all(|p| seen.insert(p))
 }
 
 fn deref<'a>(doc: &'a Document, o: &'a Object) -> Option<&'a Object> {
@@ -326,37 +343,6 @@ fn target(doc: &Document, id: ObjectId) -> ObjectId {
         Ok((Some(last), _)) => last,
         _ => id,
     }
-}
-
-/// class predicates of the known findings, evaluated on the document before the call
-/// Contents is something else than: absent / a reference that directly names a stream / an array of such references
-fn contents_plain(doc: &Document, page: ObjectId) -> bool {
-    let is_stream_ref = |o: &Object| matches!(o, Object::Reference(r) if matches!(doc.objects.get(r), Some(Object::Stream(_))));
-    match doc.get_dictionary(page).ok().and_then(|d| d.get(b"Contents").ok()) {
-        None => true,
-        Some(o @ Object::Reference(_)) => is_stream_ref(o),
-        Some(Object::Array(a)) => a.iter().all(is_stream_ref),
-        Some(_) => false,
-    }
-}
-
-/// some content stream of the page is also used by another page (or twice by this one); content
-/// stream ids are compared after following reference objects to the stream they end at
-fn contents_shared(doc: &Document, page: ObjectId) -> bool {
-    let resolve = |id: ObjectId| -> ObjectId {
-        match doc.dereference(&Object::Reference(id)) {
-            Ok((Some(last), _)) => last,
-            _ => id,
-        }
-    };
-    let ids = |p: ObjectId| -> Vec<ObjectId> { doc.get_page_contents(p).into_iter().map(resolve).collect() };
-    let mine = ids(page);
-    let mut s = BTreeSet::new();
-    if !mine.iter().all(|i| s.insert(*i)) {
-        return true;
-    }
-    doc.page_iter().filter(|p| target(doc, *p) != target(doc, page)).any(|p| ids(p).iter().any(|i| mine.contains(i)))
-        || doc.page_iter().fold(0usize, |n, p| if p == page { n + 1 } else { n }) > 1
 }
 
 /// the page has no Resources entry of its own but an ancestor provides one (class of the repaired finding C11-resources-shadow)
@@ -683,7 +669,7 @@ fn main() {
                         // dictionary may in addition have its integer Count changed (the Pages nodes above a deleted page)
                         let same_but_count = |x: &Object, y: &Object| match (x, y) {
                             (Object::Dictionary(a), Object::Dictionary(b)) => {
-                                matches!((a.get(b"Count"), b.get(b"Count")), (Ok(Object::Integer(_)), Ok(Object::Integer(_)))) && {
+                                matches!((a.get(b"Count"), b.get(b"Count")), (Ok(Object::Integer(_) | Object::Reference(_)), Ok(Object::Integer(_)))) && {
                                     let (mut a, mut b) = (a.clone(), b.clone());
                                     a.remove(b"Count");
                                     b.remove(b"Count");
@@ -770,13 +756,12 @@ fn main() {
                 Op::Cpc(p, c) => {
                     ck.req(n, before.trailer == doc.trailer, || "change_page_content changed the trailer".into());
                     if out.is_id("ok") {
-                        let tag = if !contents_plain(&before, *p) { "[C11-content-indirect] " } else if contents_shared(&before, *p) { "[C11-content-shared] " } else { "" };
                         let pc0 = page_contents(&before);
                         let pc1 = page_contents(&doc);
                         let fresh_clash = doc.max_id != before.max_id && mentioned(&before, (doc.max_id, 0));
                         if pc0.iter().any(|(q, _)| q == p) && !fresh_clash {
                             ck.req(n, pc0.len() == pc1.len() && pc0.iter().zip(pc1.iter()).all(|((q0, c0), (q1, c1))| q0 == q1 && if target(&before, *q0) == target(&before, *p) { c1.as_deref() == Some(c.as_slice()) } else { c0 == c1 }),
-                                   || format!("{}change_page_content({:?}): afterwards the page does not show exactly the new content, or another page changed", tag, p));
+                                   || format!("change_page_content({:?}): afterwards the page does not show exactly the new content, or another page changed", p));
                         }
                     } else {
                         ck.req(n, panicked || changed(&before, &doc).is_empty(), || "change_page_content failed but changed the document".into());
@@ -790,7 +775,6 @@ fn main() {
                     };
                     ck.req(n, before.trailer == doc.trailer, || "add_page_contents changed the trailer".into());
                     if out.is_id("ok") {
-                        let tag = if !contents_plain(&before, *p) { "[C11-content-indirect] " } else { "" };
                         let pc0 = page_contents(&before);
                         let pc1 = page_contents(&doc);
                         let fresh_clash = mentioned(&before, (doc.max_id, 0));
@@ -798,7 +782,7 @@ fn main() {
                             ck.req(n, pc0.len() == pc1.len() && pc0.iter().zip(pc1.iter()).all(|((q0, c0), (q1, c1))| q0 == q1 && if target(&before, *q0) == target(&before, *p) {
                                        match (c0, c1) { (Some(a), Some(b)) => { let mut w = a.clone(); w.extend_from_slice(&c); w == *b } _ => false }
                                    } else { c0 == c1 }),
-                                   || format!("{}add_page_contents({:?}): afterwards the page does not show its old content followed by the new one, or another page changed", tag, p));
+                                   || format!("add_page_contents({:?}): afterwards the page does not show its old content followed by the new one, or another page changed", p));
                         }
                         let ch = changed(&before, &doc);
                         ck.req(n, ch.len() <= 2 && before.objects.keys().all(|k| doc.objects.contains_key(k)), || format!("add_page_contents changed {:?}", ch));
@@ -870,7 +854,15 @@ fn main() {
             if !panicked && matches!(op, Op::New | Op::Add(_) | Op::Prune | Op::RmAnnot(_)) {
                 let clash = matches!(op, Op::Add(_)) && mentioned(&before, (doc.max_id, 0));
                 if !clash {
-                    ck.req(n, page_contents(&before) == page_contents(&doc), || "an operation that does not edit content changed what a page shows".into());
+                    // on a page tree with a cycle (a set_object can make one) the LIST page_iter gives is cut off by the number of
+                    // objects, so add_object lengthens it: there, each page is looked at once (first occurrence)
+                    let once = |d: &Document| -> Vec<(ObjectId, Option<Vec<u8>>)> {
+                        let mut seen = BTreeSet::new();
+                        page_contents(d).into_iter().filter(|(p, _)| seen.insert(*p)).collect()
+                    };
+                    let same = if tree_ids_once(&before) && tree_ids_once(&doc) { page_contents(&before) == page_contents(&doc) } else { once(&before) == once(&doc) };
+                    ck.req(n, same,
+                           || "an operation that does not edit content changed what a page shows".into());
                 }
             }
             if inv_before && in_domain {
